@@ -61,8 +61,8 @@ pub fn path_from_parts(user_data: &UD, str_part: &StrV) -> (r: Result<PathV, VEr
 }} // verus!
 fn main() {{}}
 """
-    return gen, [Obl("C11.path.no-dot", ["C11"], fn="Import::path_from_parts", desc="path_from_parts: the importing file's directory joined with the written path, without `.` components (`m` and `./m` are one module)")], log
+    return gen, [Obl("C11.path.no-dot", ["C11", "C16"], fn="Import::path_from_parts", desc="path_from_parts: the importing file's directory joined with the written path, without `.` components (`m` and `./m` are one module); total: a diagnostic or a path for every written path, no index or arithmetic that can panic")], log
 
 
-UNITS = [VUnit("c11_path", ["C11"], "import path: one path per module whatever the spelling", build)]
+UNITS = [VUnit("c11_path", ["C11", "C16"], "import path: one path per module whatever the spelling", build)]
 UNITS[0].assumes = ["std::path modelled as component sequences (assumed contracts of Path::new / parent / join / components().filter().collect())", "`..` components and symlinks are not normalised (a/../m and m are still two modules)"]
